@@ -102,7 +102,7 @@ def standin_gauge(tier, seed):
     return dict(evaluations=evals, distinct_nontrivial=len(distinct),
                 rule="one evaluation = one re-centring of a perturbed real model state with all gauge-free derived variables "
                      "compared before / after (or one orthogonality check); distinct = (model kind, repetition)",
-                samples=samples[:3], violations=violations[:3],
+                samples=samples[:3], violations=violations[:60],
                 bound=dict(space="seeded states of logistic / linear / joint models", repetitions=reps, exhaustive=False, seed=seed))
 
 
